@@ -113,6 +113,8 @@ func zzInspectMessage(m *Message) {
 		_ = m.String()
 		out, err := m.Serialize()
 		vAssert(err != nil || len(out) == m.Len(), "Serialize size equals Len")
+		// re-serialisation through the writer path (what a relay or an echoing handler does)
+		_, _ = m.WriteTo(&zzRecWriter{})
 	case 1:
 		_ = m.PrettyDump()
 	case 2:
